@@ -35,7 +35,7 @@ struct Ctx
 	long seed	  = 0;
 	double deadline = 200;
 	bool replay	  = false;
-	std::string replay_part, replay_case;
+	std::string replay_part, replay_case, replay_key;	// replay_key: re-run the enumeration and report only this violation key
 	std::map<std::string, long long> counters;
 	std::map<std::string, std::pair<double, std::string>> maxima;
 	std::map<std::string, long long> alphabets;
@@ -46,6 +46,7 @@ struct Ctx
 	std::vector<std::string> caps, notes;
 	long long violation_total = 0;
 	bool exhaustive			  = true;
+	int report_fd			  = 2;	 // duplicate of the original stderr (harnesses may redirect fd 1 and 2 to /dev/null)
 	std::chrono::steady_clock::time_point t0;
 };
 inline Ctx& ctx()
@@ -73,8 +74,10 @@ inline void init(int argc, char** argv)
 		else if(a == "--deadline") c.deadline = atof(nxt().c_str());
 		else if(a == "--tmp") c.tmp = nxt();
 		else if(a == "--replay") { c.replay = true; c.replay_part = nxt(); c.replay_case = nxt(); }
+		else if(a == "--replay-key") { c.replay_key = nxt(); }
 	}
 	if(c.nshards < 1) c.nshards = 1;
+	c.report_fd = dup(2);
 }
 inline double elapsed()
 {
@@ -165,6 +168,11 @@ inline std::map<std::string, std::string> parse_case(const std::string& s)
 inline void violation(const std::string& part, const std::string& key, const std::string& text, const std::string& cas)
 {
 	Ctx& c = ctx();
+	if(!c.replay_key.empty())
+	{
+		if(key != c.replay_key) return;
+		dprintf(c.report_fd, "REPRODUCED key=%s\n  %s\n  case: %s\n", key.c_str(), text.c_str(), cas.c_str());
+	}
 	c.violation_total++;
 	c.counters["violating_cases." + part + "." + key.substr(key.rfind('|') == std::string::npos ? 0 : key.rfind('|') + 1)]++;
 	if(c.replay) fprintf(stdout, "REPRODUCED part=%s key=%s\n  %s\n  case: %s\n", part.c_str(), key.c_str(), text.c_str(), cas.c_str());
@@ -194,6 +202,11 @@ inline int finish()
 {
 	Ctx& c = ctx();
 	if(c.replay) return c.violation_total ? 1 : 0;
+	if(!c.replay_key.empty())
+	{
+		dprintf(c.report_fd, c.violation_total ? "the violation recurs on this tree\n" : "the violation does not recur on this tree\n");
+		return c.violation_total ? 1 : 0;
+	}
 	FILE* f = c.out.empty() ? stdout : fopen(c.out.c_str(), "w");
 	if(!f) { perror("open out"); return 3; }
 	fprintf(f, "{\n \"counters\": {");
